@@ -8,6 +8,7 @@ import heapq
 import importlib
 import os
 import random
+import linecache
 import sys
 
 
@@ -233,8 +234,11 @@ class AnchorTracer:
     def report(self):
         out = {}
         for code, q in self.codes.items():
-            total = len({ln for (_, _, ln) in code.co_lines() if ln is not None and ln > code.co_firstlineno})
-            out[q] = {"calls": self.calls[q], "lines_hit": len(self.lines[q]), "lines": max(total, 1)}
+            body = {ln for (_, _, ln) in code.co_lines() if ln is not None and ln > code.co_firstlineno}
+            # a bare `continue` compiles to a jump that raises no LINE event of its own (observed on 3.12)
+            body = {ln for ln in body if linecache.getline(code.co_filename, ln).split("#")[0].strip() != "continue"} or body
+            out[q] = {"calls": self.calls[q], "lines_hit": len(self.lines[q]), "lines": max(len(body), 1),
+                      "hit": sorted(self.lines[q]), "body": sorted(body)}
         for q in self.unresolved:
             out[q] = {"unresolved": True}
         return out
